@@ -1,10 +1,10 @@
 (* C09: concrete witnesses (the findings replayed on the faithful model). *)
 From Coq Require Import ZArith List Bool Lia.
 Import ListNotations.
-From Osmo Require Import Gen.C09_consts C09.Model C09.Spec C09.ProofsCoins C09.ProofsDistr C09.ProofsLoop C09.ProofsInv C09.ProofsLife C09.ProofsShare C09.ProofsShare2.
+From Osmo Require Import Gen.C09_consts C09.Model C09.Spec C09.ProofsCoins C09.ProofsDistr C09.ProofsLoop C09.ProofsInv C09.ProofsLife C09.ProofsShare C09.ProofsShare2 C09.ProofsLive.
 Open Scope Z_scope.
 
-Definition w_cfg : config := mkCfg 0 1 0 3 [1000; 3600000; 10800000; 25200000] [0; 1; 2].
+Definition w_cfg : config := mkCfg 0 1 0 3 [1000; 3600000; 10800000; 25200000] [0; 1; 2] [1].
 Definition w_funds : Z -> Z -> Z := fun _ _ => 10 ^ 30.
 Definition w_thr : Z -> tval := thr_fun [TVal 1; TNoRoute; TNoRoute; TNoRoute; TNoRoute].
 
@@ -85,6 +85,21 @@ Lemma witness_F3 :
   after_epoch_end w_cfg w3_thr w3_pre = Err E_EPOCH /\ 0 < ideal_credit w_cfg w3_thr w3_pre 1 0.
 Proof. vm_compute. split; reflexivity. Qed.
 
+(* C09-F5: a lock gauge paying user 1, then user 2 creates a NoLock gauge of 2 uosmo over 3 epochs on pool 1: the next
+   epoch end fails although no min-value quote fails, and user 1 is owed the second half of the lock gauge *)
+Definition w5_ops : list op :=
+  [ OGauge 0 false 0 3600000 [(0, 10 ^ 9)] 0 2; OLock 1 0 1000 3600000;
+    OEpoch 86400000 [TVal 1; TNoRoute; TNoRoute; TNoRoute; TNoRoute];
+    ONGauge 2 false 1 [(0, 2)] 0 3; OTime 86400000 ].
+Definition w5_pre : state := run w_cfg (init_state w_funds) w5_ops.
+Lemma witness_F5 :
+  after_epoch_end w_cfg w_thr w5_pre = Err E_EPOCH /\ ideal_credit w_cfg w_thr w5_pre 1 0 = 500000000 /\
+  map g_filled (s_gauges w5_pre) = [1; 0] /\ refs_all (s_act w5_pre) = [1] /\ refs_all (s_up w5_pre) = [2].
+Proof. vm_compute. repeat split; reflexivity. Qed.
+
+Lemma w_thr_no_error : thr_no_error w_thr.
+Proof. intros d. unfold w_thr, thr_fun. destruct (Z.to_nat d) as [|[|[|[|[|[|n]]]]]]; cbn; discriminate. Qed.
+
 Lemma w3_thr_positive : thr_positive w3_thr.
 Proof.
   intros d m H. unfold w3_thr, thr_fun in H.
@@ -101,10 +116,10 @@ Lemma share_full_refuted :
   ~ (forall cfg funds ops thr s', cfg_ok cfg -> thr_positive thr ->
      let s := run cfg (init_state funds) ops in
      after_epoch_end cfg thr s = Ok s' ->
-     forall a d, a <> MODULE -> s_bank s' a d - s_bank s a d = ideal_credit cfg thr s a d).
+     forall a d, 0 <= a -> s_bank s' a d - s_bank s a d = ideal_credit cfg thr s a d).
 Proof.
   intros H. destruct witness_F2 as (E & D & I & _).
-  specialize (H w_cfg w_funds w2_ops w_thr (epoch_of w_cfg w_thr w2_pre) w_cfg_ok w_thr_positive E 1 0 ltac:(unfold MODULE; lia)).
+  specialize (H w_cfg w_funds w2_ops w_thr (epoch_of w_cfg w_thr w2_pre) w_cfg_ok w_thr_positive E 1 0 ltac:(lia)).
   fold w2_pre in H.
   rewrite D, I in H. clear - H. discriminate H.
 Qed.
@@ -115,6 +130,26 @@ Lemma epoch_succeeds_full_refuted :
 Proof.
   intros H. destruct (H w_cfg w_funds w3_ops w3_thr w_cfg_ok w3_thr_positive) as (s' & E).
   fold w3_pre in E. destruct witness_F3 as [W _]. rewrite W in E. clear - E. discriminate E.
+Qed.
+
+Lemma epoch_succeeds_without_quote_error_refuted :
+  ~ (forall cfg funds ops thr, cfg_ok cfg -> thr_no_error thr ->
+     exists s', after_epoch_end cfg thr (run cfg (init_state funds) ops) = Ok s').
+Proof.
+  intros H. destruct (H w_cfg w_funds w5_ops w_thr w_cfg_ok w_thr_no_error) as (s' & E).
+  fold w5_pre in E. destruct witness_F5 as [W _]. rewrite W in E. clear - E. discriminate E.
+Qed.
+
+Lemma share_credit_reachable : forall cfg funds ops thr s', cfg_ok cfg -> thr_positive thr ->
+  let s := run cfg (init_state funds) ops in
+  consistent_receivers (s_locks s) ->
+  (forall g, takes_part s g -> share_hyp cfg (s_locks s) g) ->
+  after_epoch_end cfg thr s = Ok s' ->
+  forall a d, 0 <= a -> s_bank s' a d - s_bank s a d = ideal_credit cfg thr s a d.
+Proof.
+  intros cfg funds ops thr s' Hc Tp s Cs Hh H a d Ha.
+  eapply share_credit; eauto; [apply reachable_inv; auto|].
+  apply (J_own _ (run_inv2 cfg ops _ Hc (init_inv funds) (init_inv2 funds))).
 Qed.
 
 Lemma filled_bounds : forall cfg funds ops g, cfg_ok cfg ->
@@ -168,5 +203,25 @@ Proof.
   split.
   { eexists. split; [split; [vm_compute; left; reflexivity|right; vm_compute; split; [reflexivity|discriminate]]|].
     split; [reflexivity|]. split; [vm_compute; discriminate|]. split; [vm_compute; left; reflexivity|vm_compute; discriminate]. }
+  vm_compute. repeat split; reflexivity.
+Qed.
+
+(* a NoLock gauge of 10 uosmo over 3 epochs on pool 1: the hypothesis of the liveness theorem holds, the epoch end
+   succeeds, floor(10/3) = 3 uosmo move from the module account to the pool's incentives address *)
+Definition nv3_ops : list op := [ ONGauge 0 false 1 [(0, 10)] 0 3; OTime 86400000 ].
+Definition nv3_pre : state := run w_cfg (init_state w_funds) nv3_ops.
+Lemma nonvacuous_nolock :
+  (forall g, takes_part nv3_pre g -> nolock_ok g) /\
+  (exists g, takes_part nv3_pre g /\ g_pool g = 1) /\
+  after_epoch_end w_cfg w_thr nv3_pre = Ok (epoch_of w_cfg w_thr nv3_pre) /\
+  s_bank nv3_pre MODULE 0 = 10 /\ s_bank (epoch_of w_cfg w_thr nv3_pre) MODULE 0 = 7 /\
+  s_bank (epoch_of w_cfg w_thr nv3_pre) (pool_addr 1) 0 - s_bank nv3_pre (pool_addr 1) 0 = 3 /\
+  map (fun g => (amount_of (g_dist g) 0, g_filled g)) (s_gauges (epoch_of w_cfg w_thr nv3_pre)) = [(3, 1)].
+Proof.
+  split.
+  { intros g [Hi _]. vm_compute in Hi. destruct Hi as [<-|[]]. intros _ remain Hr. vm_compute in Hr. inversion Hr; subst.
+    constructor; [vm_compute; discriminate|constructor]. }
+  split.
+  { eexists. split; [split; [vm_compute; left; reflexivity|right; vm_compute; split; [reflexivity|discriminate]]|reflexivity]. }
   vm_compute. repeat split; reflexivity.
 Qed.
